@@ -1,0 +1,80 @@
+//go:build verif
+
+// Contracts for package protocol, checked by /verif/govc (see /verif/DESIGN.md).
+// This file contains only comments: it adds no code to any build.
+
+package protocol
+
+//@ use streams
+
+//@ func readUint32
+//@   requires r != nil
+//@   modifies consumed(r)
+//@   alloc    0
+//@   ensures  [within] old(consumed(r)) <= consumed(r) && consumed(r) <= old(consumed(r)) + 4
+//@   ensures  [value]  $r1 == nil ==> consumed(r) == old(consumed(r)) + 4 && $r0 == be32(r, old(consumed(r)))
+//@   props    C04 C06
+
+//@ func readUint16
+//@   requires r != nil
+//@   modifies consumed(r)
+//@   alloc    0
+//@   ensures  [within] old(consumed(r)) <= consumed(r) && consumed(r) <= old(consumed(r)) + 2
+//@   ensures  [value]  $r1 == nil ==> consumed(r) == old(consumed(r)) + 2 && $r0 == be16(r, old(consumed(r)))
+//@   props    C04 C06
+
+// L is the announced length of the frame that starts at stream position c.
+//@ spec L(r any, c int) int
+//@   body int(be32(r, c))
+
+// Assumed (package-local) contract of sync.Pool.Get for the one pool of this
+// package: pool.New makes chunk-sized byte buffers and PutBuffer returns only
+// chunk-sized ones, so Get yields a []byte of 16384 bytes that nobody else holds.
+//@ extern sync.(*Pool).Get
+//@   import "sync"
+//@   sig func(p *sync.Pool) (x any)
+//@   alloc    16384
+//@   ensures  typeis_[[]byte](x) && len(as_[[]byte](x)) == 16384 && as_[[]byte](x) != nil && fresh_(as_[[]byte](x))
+
+//@ extern sync.(*Pool).Put
+//@   import "sync"
+//@   sig func(p *sync.Pool, x any)
+//@   noalloc
+
+//@ func GetBuffer
+//@   requires length >= 0 && length <= 1<<30
+//@   alloc    max(length, 16384)
+//@   ensures  len($r0) == length && $r0 != nil && fresh_($r0)
+//@   props    C04
+
+//@ func PutBuffer
+//@   alloc    0
+//@   props    C04
+
+// Assumed (package-local) refinement of bencode's Decode for the three
+// dictionaries of this package: a successful decode cannot produce byte
+// strings longer than the input it consumed.
+//@ spec pexBytes(p *pexInfo) int
+//@   body len(p.Added) + len(p.AddedF) + len(p.Added6) + len(p.Added6F) + len(p.Dropped) + len(p.Dropped6)
+//@ extern github.com/zeebo/bencode.(*Decoder).Decode
+//@   import "github.com/zeebo/bencode"
+//@   sig func(d *bencode.Decoder, val any) (err error)
+//@   requires d != nil
+//@   modifies pointee_(val), consumed(lrUnder(decSrc(d))), lrLeft(decSrc(d))
+//@   ensures  old(consumed(lrUnder(decSrc(d)))) <= consumed(lrUnder(decSrc(d)))
+//@   ensures  old(lrLeft(decSrc(d))) <= 0 ==> consumed(lrUnder(decSrc(d))) == old(consumed(lrUnder(decSrc(d)))) && lrLeft(decSrc(d)) == old(lrLeft(decSrc(d)))
+//@   ensures  old(lrLeft(decSrc(d))) > 0 ==> int64(consumed(lrUnder(decSrc(d))) - old(consumed(lrUnder(decSrc(d))))) == old(lrLeft(decSrc(d))) - lrLeft(decSrc(d)) && lrLeft(decSrc(d)) >= 0
+//@   ensures  err == nil && typeis_[*pexInfo](val) ==> pexBytes(as_[*pexInfo](val)) <= consumed(lrUnder(decSrc(d))) - old(consumed(lrUnder(decSrc(d))))
+
+//@ func Read
+//@   requires r != nil
+//@   modifies consumed(r)
+//@   ensures  [total]   $r0 != nil || $r1 != nil
+//@   ensures  [framed]  $r1 == nil ==> consumed(r) == old(consumed(r)) + 4 + L(r, old(consumed(r)))
+//@   ensures  [within]  consumed(r) <= old(consumed(r)) + 4 + L(r, old(consumed(r)))
+//@   ensures  [cap]     $r1 == nil ==> L(r, old(consumed(r))) <= 1<<20
+//@   alloc    [bounded] 32*L(r, old(consumed(r))) + 65536
+//@   deadcode 1
+//@   replay   protocol_read
+//@   witness  [b:48] streamAt(r, consumed(r) + $k)
+//@   props    C04 C05 C06
